@@ -121,6 +121,7 @@ func (c *concClient) do(method, path string, q url.Values, fields map[string]str
 		req.Header.Set("Content-Type", ctype)
 	}
 	rec := httptest.NewRecorder()
+	rec.Header().Set(browserHeader, fmt.Sprint(c.n))
 	panicked := ""
 	func() {
 		defer func() {
